@@ -216,10 +216,13 @@ func (x *Exec) modObjOf(env *Env, e SExpr) []modObj {
 	add := func(key string, ref *Term) { out = append(out, modObj{key: key, ref: ref, bound: bound, guard: guard}) }
 	switch u := tv.Ty.Underlying().(type) {
 	case *types.Slice:
+		x.heapTerm(env.st, u.Elem())
 		add(x.ti.HeapKey(u.Elem()), Sel("s-ref", tv.T))
 	case *types.Pointer:
+		x.heapTerm(env.st, elemOfPointee(u.Elem()))
 		add(x.ti.HeapKey(elemOfPointee(u.Elem())), Sel("p-ref", tv.T))
 	case *types.Map:
+		x.mapHeaps(env.st, u)
 		dk, vk, lk := x.ti.MapKeys(u)
 		add(dk, tv.T)
 		add(vk, tv.T)
@@ -269,6 +272,9 @@ func (x *Exec) contractCall(st *State, in *ssa.Call, fn *ssa.Function, c *Contra
 	vars := x.paramEnvVars(fn, c, args)
 	pre := &Snapshot{heap: copyHeap(st.heap), vars: vars, alloc: st.alloc}
 	env := &Env{x: x, st: st, heap: st.heap, vars: vars, old: pre, alloc: st.alloc}
+	if fn.Pkg != nil {
+		env.pkg = fn.Pkg.Pkg
+	}
 	for _, r := range c.Requires {
 		g := x.compileBool(env, r.Expr, r)
 		x.oblige(st, "requires", "call:"+shortKey(key)+"/"+r.Name, g, pos, r)
@@ -287,7 +293,7 @@ func (x *Exec) contractCall(st *State, in *ssa.Call, fn *ssa.Function, c *Contra
 	x.havocHeaps(st, ws, mods, true)
 	sig := fn.Signature
 	results := x.freshResults(st, sig.Results(), sanitize(fn.Name()))
-	post := &Env{x: x, st: st, heap: st.heap, vars: map[string]Value{}, old: pre, alloc: st.alloc}
+	post := &Env{x: x, st: st, heap: st.heap, vars: map[string]Value{}, old: pre, alloc: st.alloc, pkg: env.pkg}
 	for k, v := range vars {
 		post.vars[k] = v
 	}
